@@ -210,6 +210,16 @@ def check_history(case, stats):
             for env in ev.enum({"source": {"uri": "u", "data": t, "mediaType": "text/x.cucumber.gherkin+plain"}}):
                 if not isinstance(env, dict) or len(env) != 1 or next(iter(env)) not in ALLOWED_ENVELOPES:
                     raise AssertionError("stream yielded %r" % (env,))
+            if i % 2 == len(texts) % 2:
+                # the text wrapped in a scanner object, parsed, and the very same scanner handed over once more (now at its end, or wherever an
+                # aborted parse left it): whatever is left is a source text like any other - a document or the library's parser error
+                sc = gh.TokenScanner(t)
+                for _ in range(2):
+                    try:
+                        parser.parse(sc)
+                    except gh.ParserError:
+                        pass
+                sc.read()
         except AssertionError as e:
             raise Violation(case, str(e))
         except Exception as e:  # noqa
